@@ -62,8 +62,13 @@ class Sweeper:
         except Exception:
             pass
         self.functions = self._functions()
+        self.pid = os.getpid()
+        import atexit
+        atexit.register(self.close)
 
     def close(self):
+        if os.getpid() != self.pid:
+            return
         try:
             os.chdir("/")
         finally:
